@@ -78,7 +78,8 @@ CHECKS.update({
     "C08": dict(level="other", technique="who-may-call + per-arm effect sets of evaluate_input_statement + single-consumption rule",
                 text="Only INPUT rewinds (to its own token), the awaiting arm executes nothing, the reply is consumed once through Option::take, the "
                      "store is dominated by the Ok arm of the coercion, REENTER/EXTRA IGNORED arms have exactly the specified effects, reply parsing "
-                     "is the DATA parser and yields at least one item.",
+                     "is the DATA parser and yields at least one item, the coercion is the 2x2 table (text to a numeric variable is DataTypeMismatch "
+                     "on every path), the hosts hand provide_input the reader's result unchanged.",
                 note="Known: F10 (INPUT inside THEN..ELSE), F20 (target re-evaluated on REENTER).", ref="4/C08"),
     "C09": dict(level="other", technique="path counting over loop-free entry points + MustConsume greatest fixpoint for loop progress",
                 text="At most one run_next_statement per path of every entry point, at most one dispatch per run_next_statement, chain nesting through IF "
@@ -90,11 +91,13 @@ CHECKS.update({
                 note="Equal crunched views giving equal numeral values relies on str::parse::<f64> (trusted).", ref="4/C12"),
     "C13": dict(level="other", technique="cursor discipline: all writes to Tokenizer.index enumerated and classified (monotone, provenance), range construction and text provenance by data-flow, blank-skipping confined to the token boundary",
                 text="Every write to the cursor is `+= classified non-negative amount` or a restore of a saved copy; token ranges are (saved start after "
-                     "blank-chomp)..(cursor at return); error positions are cursor values; the two collectors are the same iteration.",
+                     "blank-chomp)..(cursor at return); error positions are cursor values; the two collectors are the same iteration; the tokenizer "
+                     "writes no state besides the cursor and the error latch (context freedom, a necessary condition of the re-tokenisation clause).",
                 note="The re-tokenisation round trip of a range is behavioural and not decided. Known: F9.", ref="4/C13"),
     "C14": dict(level="other", technique="inverse-table cross-check of the lexer (keyword chain, byte switch) and Token's Display (format templates decoded), finiteness and DATA rules",
                 text="For all fixed-spelling tokens Display(lex(s)) == s and every printed variant has a lexer row; REM/DATA/string/symbol/numeral "
-                     "rendering rules; numerals stored in tokens are finite; DATA renderer vs parser.",
+                     "rendering rules; a string literal's text is the source up to the first quote; numerals stored in tokens are finite; DATA renderer "
+                     "vs parser; the DATA cursor is a function of the stored lines alone.",
                 note="Identical behaviour under RUN of the reloaded program is not decided. F6, F14, F15 were repaired in /repo.", ref="4/C14"),
     "C15": dict(level="other", technique="sibling data-flow comparison of the two loading paths (store conditions by control dependence, analysis write set vs reset kill set), post-dominance configuration rule and forward may-analysis of the line buffer over the CLI crate",
                 text="Both loading paths parse, tokenize and store with the same calls and data flow; every site that installs the CLI's interpreter "
